@@ -536,6 +536,15 @@ impl IntentSpec {
     pub fn token(&self) -> u64 {
         token_of(&self.bytes)
     }
+    /// Ticketed route actually used. Intents that match no command rule ('U')
+    /// always go through plain `ingest`: a ticketed one committed next to a
+    /// matched intent leaves a receipt correlation that
+    /// `restore_causal_runtime_history` rejects (receipt has entries, none for
+    /// it), which makes the restart path unusable for the scenario — reported
+    /// separately, outside C08/C09.
+    pub fn is_ticketed(&self) -> bool {
+        self.ticketed && self.behaviour() != b'U'
+    }
     pub fn envelope(&self, topo: &Topology) -> IngressEnvelope {
         let target = match &self.target {
             TargetSpec::Default(w) => IngressTarget::DefaultWriter {
@@ -859,7 +868,7 @@ impl World {
     pub fn submit(&mut self, spec: &IntentSpec) -> SubmitObs {
         let env = spec.envelope(&self.topo);
         let id = env.ingress_id();
-        if !spec.ticketed {
+        if !spec.is_ticketed() {
             return match self.runtime.ingest(env) {
                 Ok(IngressDisposition::Accepted {
                     ingress_id,
